@@ -63,9 +63,11 @@ def parse_frames(data):
     return msgs, problems
 
 
-def run_session(chunks, close_stdin=True, timeout=10.0, delay=0.0, binary=None, workers="4"):
+def run_session(chunks, close_stdin=True, timeout=10.0, delay=0.0, binary=None, workers="4", read_after=None):
     """Write `chunks` (list of bytes) to the server, one write+flush per chunk (optional delay
-    between writes), then close stdin. Returns dict(stdout, messages, problems, rc, wall, timed_out)."""
+    between writes), then close stdin. Returns dict(stdout, messages, problems, rc, wall, timed_out).
+    `read_after` = a slow client: the server's stdout is not read until everything has been written
+    or `read_after` seconds have passed, whichever comes first (back-pressure reaches the server)."""
     env = dict(os.environ)
     # error reports of the server symbolise a backtrace of the debug binary (~1 s CPU); not needed
     env["RUST_BACKTRACE"] = "0"
@@ -76,7 +78,13 @@ def run_session(chunks, close_stdin=True, timeout=10.0, delay=0.0, binary=None, 
     out = bytearray()
     err = bytearray()
 
+    go = threading.Event()
+    if read_after is None:
+        go.set()
+
     def rd(stream, buf):
+        if stream is p.stdout:
+            go.wait(read_after)
         while True:
             b = stream.read(65536)
             if not b:
@@ -98,6 +106,7 @@ def run_session(chunks, close_stdin=True, timeout=10.0, delay=0.0, binary=None, 
     except (BrokenPipeError, OSError):
         pass
     t_written = time.time()
+    go.set()
     if close_stdin:
         try:
             p.stdin.close()
